@@ -10,6 +10,7 @@ import MD.Model.Dtype
 import MD.Model.Marginal
 import MD.Model.Validate
 import MD.Model.Plot
+import MD.Model.Axes
 /-! JSON-lines driver: one request per line on stdin, one response per line on stdout. -/
 open Lean MD
 
@@ -460,6 +461,26 @@ def handle (j : Json) : Except String Json := do
     let (s, o, t) := MD.Cfg.exec avail p .mpl
     pure (Json.mkObj [("state", .str (backendStr s)), ("out", .str (outStr o)),
       ("trace", .arr (t.map (fun b => Json.str (backendStr b))).toArray)])
+  | "axes" =>
+    -- the backend / axes block of the plotting functions: ids 0 = pyplot's current axes, 1 = another Axes,
+    -- 2 = a plotly figure handed in, 9 = a newly created figure
+    let cfg ← match (← getStr j "cfg") with
+      | "mpl" => pure MD.Cfg.Backend.mpl | "plotly" => pure MD.Cfg.Backend.plotly | s => throw s!"bad cfg {s}"
+    let ax ← match (← getStr j "ax") with
+      | "none" => pure MD.Ax.AxArg.none | "current" => pure (MD.Ax.AxArg.mpl 0) | "given" => pure (MD.Ax.AxArg.mpl 1)
+      | "figure" => pure (MD.Ax.AxArg.plotly 2) | "junk" => pure MD.Ax.AxArg.other | s => throw s!"bad ax {s}"
+    let ok ← getBool j "args_ok"
+    let k ← match j.getObjVal? "k" with
+      | .ok (.num n) => pure n.mantissa.toNat
+      | _ => throw "missing k"
+    let r := MD.Ax.plot ⟨cfg, 0, 9⟩ ax ok k
+    let tgt : Option MD.Ax.Target → Json
+      | some (.mpl i) => .str s!"mpl:{i}" | some (.plotly i) => .str s!"plotly:{i}" | none => .null
+    pure (Json.mkObj [("out", .str (match r.out with | .ok => "ok" | .valueError => "ValueError")),
+      ("returned", tgt r.returned),
+      ("on_current", Json.num ⟨(MD.Ax.artistsOn r (.mpl 0) : Nat), 0⟩),
+      ("on_given", Json.num ⟨(MD.Ax.artistsOn r (.mpl 1) : Nat), 0⟩),
+      ("cfg_after", .str (backendStr r.cfgAfter))])
   | _ => throw s!"unknown op {op}"
 
 partial def loop (hin : IO.FS.Stream) (hout : IO.FS.Stream) : IO Unit := do
